@@ -329,7 +329,48 @@ fn spell_include(from: &str, to: &str, style: u64) -> String {
             Some(own) => format!("../{}/{}", own, rel),
             None => format!("sub/../{}", rel),
         },
-        _ => format!("/mem/{}", to),
+        3 => format!("/mem/{}", to),
+        _ => {
+            // the same target written as a pattern: one letter of the file name becomes `?`
+            match rel.rfind('/').map(|p| p + 1).or(Some(0)) {
+                Some(p) if rel.len() > p + 2 => format!("{}?{}", &rel[..p + 1], &rel[p + 2..]),
+                _ => rel,
+            }
+        }
+    }
+}
+
+/// A ledger with date-shaped tokens (digits and separators, 5-12 bytes, mostly *not* laid out
+/// yyyy/mm/dd) in every position a date can appear.
+fn date_shapes(rng: &mut Rng) -> String {
+    let mut tok = |rng: &mut Rng| -> String {
+        let sep = *rng.pick(&['/', '-', '/', '.']);
+        let widths: [usize; 3] = match rng.below(6) {
+            0 => [4, 2, 2],
+            1 => [5, 1, 2],
+            2 => [4, 1, 3],
+            3 => [4, 3, 1],
+            4 => [3, 2, 3],
+            _ => [1 + rng.usize(6), 1 + rng.usize(4), 1 + rng.usize(6)],
+        };
+        let mut t = String::new();
+        for (i, w) in widths.iter().enumerate() {
+            if i > 0 {
+                t.push(if rng.chance(1, 8) { *rng.pick(&['/', '-']) } else { sep });
+            }
+            for k in 0..*w {
+                let d = if i == 0 && k < 4 { [2, 0, 2, 4][k] } else { rng.below(10) as usize };
+                t.push((b'0' + d as u8) as char);
+            }
+        }
+        t
+    };
+    let (d1, d2, d3, d4) = (tok(rng), tok(rng), tok(rng), tok(rng));
+    match rng.below(4) {
+        0 => format!("{} shop\n    A    1 USD\n    B\n", d1),
+        1 => format!("2024/01/05={} shop\n    A    1 USD\n    B\n", d2),
+        2 => format!("2024/01/05 shop\n    A    1 AAPL {{10 USD}} [{}]\n    B\n", d3),
+        _ => format!("{}={} shop\n    A    1 AAPL [{}] @ 2 USD\n    B\n\n{} next\n    A    1 USD\n    B\n", d1, d2, d3, d4),
     }
 }
 
@@ -350,7 +391,7 @@ fn include_graph(rng: &mut Rng) -> (Vec<(String, String)>, String) {
                     rng.pick(&junk).to_string()
                 } else {
                     let to = names[rng.usize(n)];
-                    spell_include(name, to, rng.below(4))
+                    spell_include(name, to, rng.below(5))
                 };
                 content.push_str(&format!("include {}\n\n", target));
             } else {
@@ -657,7 +698,7 @@ impl Check for C06 {
         i -= p.random;
         if i < p.zeros {
             for k in 0..6 {
-                let s = zero_slots(&mut rng);
+                let s = if k == 5 { date_shapes(&mut rng) } else { zero_slots(&mut rng) };
                 exercise_text(rec, &s, true);
                 rec.nontrivial(&s);
                 if rec.wants_sample() && k == 0 {
@@ -759,8 +800,8 @@ impl Check for C06 {
         "Families: every prefix (cut at every character) of generated grammatical ledgers and of every *.ledger under /repo/testdata \
          and /repo/cli/tests/testdata; 12 token-level mutants per generated ledger (dictionary insertions, deletions, duplications, \
          line swaps, numbers replaced by zeros / extreme values); random strings over the ledger alphabet with arbitrary Unicode; \
-         ledgers with zeros and boundary values in every slot that accepts a number; include graphs of 2-5 files with self-includes, \
-         cycles, globs, missing and malformed targets on the in-memory and the real file system; nesting depth 1..30000 of \
+         ledgers with zeros and boundary values in every slot that accepts a number, and with date-shaped tokens of 5-12 bytes (widths other than 4-2-2, mixed separators) as transaction, effective and lot date; include graphs of 2-5 files with self-includes, \
+         cycles (also through edges written as patterns), globs, missing and malformed targets on the in-memory and the real file system; nesting depth 1..30000 of \
          parentheses / unary minus / operator chains within 64 KiB; price graphs with many equally good conversion chains (rows of 5-45 \
          diamonds, cliques of 5-14, chains of 30-200, grids up to 7x7, random graphs; all rates on 1-3 days); black-box runs of the real binary (format, balance, balance -X, \
          --historical, register, accounts, primitive flatten, primitive eval). Operations per input: parse_ledger (+ Display of \
